@@ -559,7 +559,10 @@ def run_c18(mbi, case):
                 bad = True
                 break
             if abs(arr.sum() - total) > 1e-6 * total:
-                viol.append(Violation('c18-sum', 'c18-sum:' + oracle, 'table for measured clique %s sums to %r, total %r (%s)' % (proj, float(arr.sum()), total, tag)).as_dict())
+                projs = [tuple(m_[3]) for m_ in meas]
+                permdup = any(set(a_) == set(b_) and a_ != b_ for a_ in projs for b_ in projs)      # one attribute set measured under two attribute orders
+                viol.append(Violation('c18-sum', 'c18-sum:' + oracle + (':permuted-duplicate-cliques' if permdup else ''), 'table for measured clique %s sums to %r, total %r (%s)' % (
+                    proj, float(arr.sum()), total, tag)).as_dict())
                 bad = True
                 break
         if bad:
